@@ -14,6 +14,28 @@ from sim.runner import Check
 from sim.world import BACKENDS
 
 
+class Troublemaker(actors.Party):
+    """Rejected writes (through the handle of a bucket deleted since) and watcher buckets that are deleted and
+    re-created under the same id in the middle of their stream."""
+
+    name = "trouble"
+
+    def __init__(self, r, cfg, watchers):
+        super().__init__(r, cfg)
+        self.watchers = watchers
+        self.first = True
+
+    def step(self):
+        r = self.r
+        if self.first:
+            self.first = False
+            return [{"op": "create", "b": "tmp", "meta": gen.meta(r, wild=False)}, {"op": "delete_bucket", "b": "tmp"}]
+        if r.random() < 0.6:
+            return {"op": "insert_stale", "b": "tmp", "ev": gen.event(r, self.cfg["lat"])}
+        b = r.choice(self.watchers)
+        return [{"op": "delete_bucket", "b": b}, {"op": "create", "b": b, "meta": gen.meta(r, wild=False)}]
+
+
 class C07(Check):
     prop = "C07"
     level = "exploration"
@@ -26,7 +48,7 @@ class C07(Check):
         "buckets sharing the lattice and with clean restarts; same stream set on each backend; non-trivial = some "
         "stream of >=3 heartbeats produced both a merge and a non-merge; distinct = distinct (backend, op-kind sequence, stream shape)"
     )
-    expected_probes = ["merged", "not_merged", "zero_length_heartbeat", "end_ties_with_previous", "other_bucket_shares_end_instant", "restart_clean", "gap_exactly_pulsetime", "merged_event_longer_than_24h"]
+    expected_probes = ["merged", "not_merged", "zero_length_heartbeat", "end_ties_with_previous", "other_bucket_shares_end_instant", "restart_clean", "gap_exactly_pulsetime", "merged_event_longer_than_24h", "watcher_bucket_recreated", "insert_through_stale_handle"]
     assumptions = ["one whole heartbeat (read newest, merge, replace_last|insert) is atomic, as aw-server guarantees by its lock", "heartbeat_reduce/heartbeat_merge themselves are the specification here (C08 is about them)"]
     real_components = Check.real_components + ["aw_transform.heartbeat_merge / heartbeat_reduce"]
 
@@ -55,7 +77,8 @@ class C07(Check):
             parties.append(actors.Importer(rs["imp%d" % k], cfg, b))
             parties.append(actors.Editor(rs["edit%d" % k], cfg, b))
         parties.append(actors.Operator(rs["oper"], {"dirty_p": 0.0}))
-        weights = {"watcher": 3.0, "importer": 1.0, "editor": 1.0, "operator": 0.1}
+        parties.append(Troublemaker(rs["trouble"], cfg, ids))
+        weights = {"watcher": 3.0, "importer": 1.0, "editor": 1.0, "operator": 0.1, "trouble": r.choice([0.0, 0.2, 0.5])}
         nsteps = r.choice([4, 8, 12, 25, 50] + ([100, 200] if tier == "thorough" else []))
         steps += actors.schedule(rs["sched"], parties, weights, nsteps)
         return {"backend": backend, "steps": steps, "lat": lat}
@@ -69,6 +92,9 @@ class C07(Check):
     def after(self, world, step, out, i):
         op = step["op"]
         if op != "heartbeat":
+            if op == "delete_bucket" and out.get("exc") is None and step["b"] in self.streams:
+                self.streams[step["b"]] = []  # the bucket starts over: so does what it must hold
+                world.probes["watcher_bucket_recreated"] += 1
             before = world.view
             after = world.refresh_view()
             # traffic on other buckets must not disturb a watcher's bucket (belongs to C04; abandon there)
